@@ -14,7 +14,8 @@ from .. import fields, guard, nets, refloop
 PROPERTY = "C18"
 LEVEL = "fault_enumeration"
 RULE = ("fault sequences = injection iteration k in 0..n-1 (n=6, exhaustive) x origin (loss value, gradient of a "
-        "network leaf, gradient of an equation parameter, optimizer update) x optimizer (sgd, adam) x loss (ODE, "
+        "network leaf, gradient of an equation parameter, optimizer update, one entry only of a multi-entry leaf in the "
+        "gradient / in the update) x optimizer (sgd, adam) x loss (ODE, "
         "stationary) + fault-free controls + two faults k1<k2; non-trivial = a fault with k >= 1 (last finite "
         "parameters differ from the initial ones); distinct = distinct (loss, optimizer, origin, k[, k2])")
 ASSUMPTIONS = [
@@ -23,10 +24,10 @@ ASSUMPTIONS = [
     "histories compared at rtol 1e-6 (see C07), NaN patterns exactly",
 ]
 TIMEOUT = {"quick": 1800, "thorough": 5400}
-MIN_COUNTERS = {"quick": {"fault_runs": 24, "faults_with_k_ge_1": 18, "control_runs": 1},
-                "thorough": {"fault_runs": 96, "faults_with_k_ge_1": 72, "control_runs": 4}}
+MIN_COUNTERS = {"quick": {"fault_runs": 36, "faults_with_k_ge_1": 27, "control_runs": 1},
+                "thorough": {"fault_runs": 144, "faults_with_k_ge_1": 108, "control_runs": 4}}
 N_ITER = 6
-ORIGINS = ["loss", "grad_nn", "grad_eq", "update"]
+ORIGINS = ["loss", "grad_nn", "grad_eq", "update", "grad_nn_entry", "update_entry"]
 
 
 def exhaustive(tier):
@@ -56,7 +57,7 @@ def make_chain(base, faults):
     import optax
 
     def injector(stage):
-        mine = [(o, k) for o, k in faults if (o == "update") == (stage == "post") and o != "loss"]
+        mine = [(o, k) for o, k in faults if (o.startswith("update")) == (stage == "post") and o != "loss"]
 
         def init(params):
             return jnp.zeros((), jnp.int32)
@@ -66,6 +67,9 @@ def make_chain(base, faults):
                 hit = jnp.where(state == k, jnp.nan, 0.0)
                 if o == "grad_eq":
                     updates = eqx.tree_at(lambda t: t.eq_params["theta"], updates, replace_fn=lambda x: x + hit)
+                elif o.endswith("_entry"):
+                    # NaN in ONE entry of a multi-entry leaf (the other entries and leaves stay finite)
+                    updates = eqx.tree_at(lambda t: t.nn_params.A, updates, replace_fn=lambda x: x.at[0, 1].add(hit))
                 else:
                     updates = eqx.tree_at(lambda t: t.nn_params.C0, updates, replace_fn=lambda x: x + hit)
             return updates, state + 1
